@@ -89,7 +89,11 @@ def check_extend_state(fx, rep):
         for (sv, lit, _f, _b) in r.lits:
             if render(sv).startswith('was_destroyed('):
                 wd = lit_truth(lit)
-                if 'next(' not in render(sv):
+                who = sv[2][0] if sv[0] == 'call' and sv[2] else None
+                while isinstance(who, tuple) and who[0] in ('valref', 'ref') and len(who) > 1 and isinstance(who[1], tuple):
+                    who = who[1]
+                later = isinstance(who, tuple) and who[0] == 'proj' and isinstance(who[1], tuple) and who[1][0] == 'call' and who[1][1].endswith('::next')
+                if not later:
                     problems.append('the storage replacement is decided on %s, not on the later account' % render(sv)[:60])
         stores = {''.join(path): v for (root, path), v in r.stores.items() if root[0] == 'deref'}
         if any(e[0].endswith('VacantEntry::insert') for e in r.events):
